@@ -237,11 +237,24 @@ def slice_constant(root, spec):
     """{'const': NAME, 'file':..., 'regex': r'#define NAME (\\S+)' | ..., 'ctype': 'int'} -> #define NAME (value) copied from source"""
     text = strip_comments(open(os.path.join(root, spec['file'])).read())
     ms = re.findall(spec['regex'], text)
-    if len(ms) != 1:
-        raise SliceError('constant %s: regex matched %d times' % (spec['const'], len(ms)))
+    if len(ms) != spec.get('count', 1) or len(set(ms)) != 1:
+        raise SliceError('constant %s: regex matched %d times (%d distinct)' % (spec['const'], len(ms), len(set(ms))))
     val = ms[0].strip()
     val = re.sub(r'\bstatic_cast<(\w+)>\(', r'(\1)(', val)
     return '#define %s (%s)\n' % (spec['const'], val)
+
+def slice_raw(root, spec):
+    """{'raw': label, 'file':..., 'regex': ...} -> the matched text copied verbatim (comment-stripped), must match exactly once.
+    Optional 'subst': [(pat, rep, min)] applied to the copied text."""
+    text = strip_comments(open(os.path.join(root, spec['file'])).read())
+    ms = list(re.finditer(spec['regex'], text, re.S))
+    if len(ms) != 1:
+        raise SliceError('raw block %s: regex matched %d times' % (spec['raw'], len(ms)))
+    t = ms[0].group(1) if ms[0].groups() else ms[0].group(0)
+    for pat, rep, mn in spec.get('subst', []):
+        t, k = re.subn(pat, rep, t, flags=re.S)
+        if k < mn: raise SliceError('raw block %s: rewrite %r fired %d < %d' % (spec['raw'], pat, k, mn))
+    return '/* raw block %s copied from %s */\n%s\n' % (spec['raw'], spec['file'], t)
 
 def generate(root, unit):
     """unit: dict with 'name', 'structs', 'consts', 'functions'.
@@ -252,6 +265,8 @@ def generate(root, unit):
     recs = []
     for c in unit.get('consts', []):
         tparts.append(slice_constant(root, c))
+    for r in unit.get('raw', []):
+        tparts.append(slice_raw(root, r))
     for s in unit.get('structs', []):
         tparts.append(slice_struct(root, s))
     for pre in unit.get('pre_text', []):
